@@ -1761,6 +1761,227 @@ def rejected_stream(ctx, n_cases, cap):
             ctx.fail('C10:%s:invalid-value-accepted' % site, 'constructor accepted an invalid %s' % site, dict(kind='ctor', site=site))
 
 
+# ----------------------------------------------------------------------------------------------- shared instances (round 5)
+def shared_integrator_stream(ctx, n_cases, cap):
+    """state shared between instances: ONE integrator object serves 2-3 emitters with DIFFERENT grids (same geometry class),
+    called in interleaved order, both orders; likewise `rt2.material.integrator = rt1.material.integrator` for objects.
+    Every call must give exactly what the same emitter gives with a private, fresh integrator (S) and what the stateless
+    model gives (K).  Interleaved calls on emitters with private integrators are checked too (class-level state)."""
+    from raysect.optical import World, Spectrum, Point3D
+    rng = ctx.rng
+    lines, metas = [], []
+    for it in range(n_cases):
+        geo = 'cart' if rng.random() < 0.5 else 'cyl'
+        cfgs = [(make_cart(rng) if geo == 'cart' else make_cyl(rng)) for _ in range(rng.randint(2, 3))]
+        step, ms = None, rng.choice([2, 3])
+        segs, solo = [], []
+        for cfg in cfgs:
+            cls, seg = (seg_cart if geo == 'cart' else seg_cyl)(rng, cfg, False)
+            segs.append(seg)
+        L = max(math.dist(sg[:3], sg[3:]) for sg in segs)
+        step = rnd_step(rng, cfgs[0], max(L, 1e-6), False, cap)
+        for cfg, seg in zip(cfgs, segs):
+            solo.append(impl_integrate(cfg, step, ms, seg, None))          # fresh private integrator per call
+        shared = integrator(cfgs[0], step, ms) if rng.random() < 0.8 else None
+        world, ray, eye = _scene()
+        order = [rng.randrange(len(cfgs)) for _ in range(rng.randint(3, 6))]
+        if shared is not None and len(set(order)) < 2:
+            order = list(range(len(cfgs))) + order
+        privates = [integrator(c, step, ms) for c in cfgs]
+        for pos, k in enumerate(order):
+            cfg, seg = cfgs[k], segs[k]
+            mat = material(cfg)
+            integ = shared if shared is not None else privates[k]
+            sp = Spectrum(500.0, 501.0, mat.bins)
+            st, r = call(integ.integrate, sp, world, ray, None, mat, Point3D(*seg[:3]), Point3D(*seg[3:]), eye, eye)
+            got = (st, [float(v) for v in sp.samples] if st == 'ok' else None)
+            ref = solo[k]
+            desc = dict(kind='shared-integrator', geo=geo, shared=shared is not None, order=order, position=pos,
+                        grids=[dict(shape=c['shape'], steps=c['steps'], rmin=c.get('rmin'), period=c.get('period')) for c in cfgs],
+                        shape=cfg['shape'], steps=cfg['steps'], rmin=cfg.get('rmin'), period=cfg.get('period'),
+                        voxel_map=np.asarray(mat.voxel_map).ravel().tolist(), step=step, min_samples=ms, segment=seg)
+            ctx.count('X:%s:%s' % ('shared-integrator' if shared is not None else 'interleaved-private', geo))
+            ctx.case(key=('shared', geo, it, pos) if ref[1] and any(ref[1]) else None)
+            if got[0] != ref[0] or (ref[0] == 'ok' and got[1] != ref[1]):
+                ctx.fail('C10:integrator:%s' % ('state-shared-between-emitters' if shared is not None else 'state-shared-between-instances'),
+                         'call %d of the order %r (%d emitters with different grids%s): %r, the same emitter with a fresh private integrator %r'
+                         % (pos, order, len(cfgs), ', ONE integrator object' if shared is not None else '', got, ref), desc)
+                break
+            if pos == len(order) - 1:
+                lines.append(model_line(cfg, step, ms, seg, [0.0] * mat.bins, np.asarray(mat.voxel_map), mat.bins))
+                metas.append((got, desc))
+        # objects: rt2.material.integrator = rt1.material.integrator, traced in both orders
+        if it % 3 == 0:
+            w = World()
+            ca, cb = cfgs[0], cfgs[1]
+            objs, rays = [], []
+            for c in (ca, cb):
+                c = dict(c)
+                c.pop('mat', None)
+                c.pop('mat_id', None)
+                rt = _mk_object(c, w, step, voxel_map=c['vmap'], mask=c['mask'])
+                o, d, po, vd = _object_ray(rng, c)
+                objs.append(rt)
+                rays.append((po, vd))
+            from raysect.optical import translate
+            span = 4.0 * max(max(c['shape'][a] * c['steps'][a] for a in (0, 2)) + c.get('rmin', 0.0) for c in (ca, cb)) + 10.0
+            objs[1].transform = translate(0, 0, 10.0 * span)               # far apart: each ray meets one object only
+            rays[1] = (rays[1][0].transform(objs[1].transform), rays[1][1])
+            alone = [_snap_object(objs[i], w, *rays[i])['result'] for i in (0, 1)]
+            objs[1].material.integrator = objs[0].material.integrator
+            for first in ((0, 1), (1, 0), (0, 1)):
+                for i in first:
+                    now = _snap_object(objs[i], w, *rays[i])['result']
+                    ctx.count('X:shared-integrator:objects')
+                    if now != alone[i]:
+                        ctx.fail('C10:integrator:state-shared-between-emitters',
+                                 'two %s objects sharing one integrator (rt2.material.integrator = rt1.material.integrator), order %r: object %d traces %r, '
+                                 'with its own integrator %r' % (geo, first, i, now, alone[i]),
+                                 dict(kind='shared-integrator-objects', geo=geo, grids=[dict(shape=c['shape'], steps=c['steps']) for c in (ca, cb)], step=step))
+                        break
+    outs = ctx.driver(lines) if lines else []
+    for (got, desc), o_ in zip(metas, outs):
+        mst, ment = parse_model(o_)
+        ctx.traces += 1
+        if mst != got[0] or (mst == 'ok' and not close(ment, got[1], TOL, 1e-300)):
+            ctx.disagreements += 1
+            ctx.broke('correspondence', 'C10 shared integrator: stateless model vs implementation', dict(model=(mst, ment), implementation=got, input=desc))
+
+
+def _fan_observers():
+    """deterministic observers whose k-th SAMPLE of a pixel is its own ray; every generated ray is logged (oracle input)"""
+    if 'Fan0D' in _CTX:
+        return _CTX['Fan0D'], _CTX['Fan1D'], _CTX['Fan2D']
+    from raysect.optical import Point3D, Vector3D
+    from raysect.optical.observer.base import Observer0D, Observer1D, Observer2D
+    from raysect.optical.observer import FullFrameSampler1D, FullFrameSampler2D
+
+    def gen(self, key, template, ray_count):
+        fan = self.fans_[key]
+        out = []
+        for _ in range(ray_count):
+            k = self.count_.get(key, 0)
+            self.count_[key] = k + 1
+            o, d = fan[k % len(fan)]
+            self.log_.setdefault(key, []).append((o, d))
+            out.append((template.copy(Point3D(*o), Vector3D(*d)), 1.0))
+        return out
+
+    class Fan0D(Observer0D):
+        def __init__(self, fans, sens, pipelines, **kw):
+            self.fans_, self.sens_, self.count_, self.log_ = fans, sens, {}, {}
+            super().__init__(pipelines, **kw)
+
+        def _generate_rays(self, template, ray_count):
+            return gen(self, 0, template, ray_count)
+
+        def _pixel_sensitivity(self):
+            return self.sens_
+
+    class Fan1D(Observer1D):
+        def __init__(self, fans, sens, pipelines, **kw):
+            self.fans_, self.sens_, self.count_, self.log_ = fans, sens, {}, {}
+            super().__init__(len(fans), FullFrameSampler1D(), pipelines, **kw)
+
+        def _generate_rays(self, pixel, template, ray_count):
+            return gen(self, pixel, template, ray_count)
+
+        def _pixel_sensitivity(self, pixel):
+            return self.sens_
+
+    class Fan2D(Observer2D):
+        def __init__(self, fans, shape, sens, pipelines, **kw):
+            self.fans_, self.sens_, self.count_, self.log_ = fans, sens, {}, {}        # fans[(x, y)]
+            super().__init__(shape, FullFrameSampler2D(), pipelines, **kw)
+
+        def _generate_rays(self, x, y, template, ray_count):
+            return gen(self, (x, y), template, ray_count)
+
+        def _pixel_sensitivity(self, x, y):
+            return self.sens_
+
+    _CTX['Fan0D'], _CTX['Fan1D'], _CTX['Fan2D'] = Fan0D, Fan1D, Fan2D
+    return Fan0D, Fan1D, Fan2D
+
+
+def multitask_stream(ctx, n_cases):
+    """pipelines under multi-task renders: every pixel sample is a DIFFERENT ray; for the 0D observer the samples are split into
+    render tasks of unequal size (pixel_samples not a multiple of samples_per_task).  Oracle: matrix[pixel] = mean over the
+    generated rays of the traced spectrum (x sensitivity for 'power'): every sample has weight 1/pixel_samples."""
+    from raysect.optical import World, Ray, Point3D, Vector3D
+    from raysect.core.workflow import SerialEngine
+    from cherab.tools.raytransfer import RayTransferBox, RayTransferPipeline0D, RayTransferPipeline1D, RayTransferPipeline2D
+    Fan0D, Fan1D, Fan2D = _fan_observers()
+    rng = ctx.rng
+    for it in range(n_cases):
+        world = World()
+        cfg = make_cart(rng)
+        sh = cfg['shape']
+        ext = [sh[a] * cfg['steps'][a] for a in range(3)]
+        rt = RayTransferBox(ext[0], ext[1], ext[2], sh[0], sh[1], sh[2], voxel_map=cfg['vmap'], mask=cfg['mask'], parent=world)
+
+        def a_ray():
+            tgt = [rng.uniform(0.1, 0.9) * e for e in ext]
+            d = [rng.gauss(0, 1) for _ in range(3)]
+            nd = math.sqrt(sum(c * c for c in d))
+            d = [c / nd for c in d]
+            return [tgt[a] - 3 * max(ext) * d[a] for a in range(3)], d
+        dim = ('0D', '0D', '1D', '2D')[it % 4]
+        kind = rng.choice(['radiance', 'power'])
+        sens = rng.choice([1.0, 2.5, 0.125])
+        ps = rng.choice([3, 5, 7, 4])
+        common = dict(parent=world, min_wavelength=500.0, max_wavelength=501.0, spectral_bins=rt.bins, pixel_samples=ps)
+        if dim == '0D':
+            spt = rng.choice([1, 2, 3])
+            pipe = RayTransferPipeline0D(kind=kind)
+            obs = Fan0D({0: [a_ray() for _ in range(ps)]}, sens, [pipe], samples_per_task=spt, **common)
+            keys = [0]
+        elif dim == '1D':
+            npx = rng.randint(1, 3)
+            spt = None
+            pipe = RayTransferPipeline1D(kind=kind)
+            obs = Fan1D({i: [a_ray() for _ in range(ps)] for i in range(npx)}, sens, [pipe], **common)
+            keys = list(range(npx))
+        else:
+            nx, ny = rng.randint(1, 2), rng.randint(1, 2)
+            spt = None
+            pipe = RayTransferPipeline2D(kind=kind)
+            obs = Fan2D({(x, y): [a_ray() for _ in range(ps)] for x in range(nx) for y in range(ny)}, (nx, ny), sens, [pipe], **common)
+            keys = [(x, y) for x in range(nx) for y in range(ny)]
+        obs.render_engine = SerialEngine()
+        obs.quiet = True
+        obs.spectral_rays = 1
+        for k in range(rng.randint(1, 2)):
+            obs.log_ = {}
+            st, r = call(obs.observe)
+            desc = dict(kind='pipeline-multitask', dim=dim, pipeline_kind=kind, sensitivity=sens, pixel_samples=ps, samples_per_task=spt,
+                        observe=k + 1, shape=sh, steps=cfg['steps'], voxel_map=np.asarray(rt.voxel_map).ravel().tolist(),
+                        rays={str(key): obs.log_.get(key) for key in keys})
+            ctx.count('pipeline%s:multitask:ps=%d:spt=%s' % (dim, ps, spt))
+            if st != 'ok':
+                ctx.fail('C10:pipeline%s:multitask:raised' % dim, 'observe raised %s: %s' % (st, r), desc)
+                break
+            want = []
+            for key in keys:
+                acc = np.zeros(rt.bins)
+                rays = obs.log_.get(key, [])
+                for o, d in rays:
+                    ray = Ray(origin=Point3D(*o), direction=Vector3D(*d), min_wavelength=500.0, max_wavelength=501.0, bins=rt.bins)
+                    acc += np.array(ray.trace(world).samples) * (sens if kind == 'power' else 1.0)
+                want.append(acc / max(len(rays), 1))
+                if len(rays) != ps:
+                    ctx.fail('C10:pipeline%s:multitask:sample-count' % dim, 'pixel %r received %d samples, pixel_samples = %d' % (key, len(rays), ps), desc)
+            want = np.array(want)
+            got = np.array(pipe.matrix, dtype=float).reshape(len(keys), -1)
+            ctx.case(key=('multitask', dim, kind, ps, spt, it, k) if want.any() else None)
+            if got.shape != want.shape or not np.allclose(got, want, rtol=1e-9, atol=1e-12):
+                ctx.fail('C10:pipeline%s:%s:not-per-sample-mean' % (dim, kind),
+                         'pixel_samples %d, samples_per_task %r, observe #%d: matrix rows sum to %r, the per-sample mean of the traced rays sums to %r; matrix %r, mean %r'
+                         % (ps, spt, k + 1, got.sum(axis=1).tolist(), want.sum(axis=1).tolist(), got.tolist(), want.tolist()), desc)
+                break
+        obs.parent = None
+
+
 # ----------------------------------------------------------------------------------------------- state machines vs model (K)
 def state_machine_stream(ctx, n_cases):
     """K for the state-machine theorems: (a) histories of step / min_samples writes (valid and invalid, inside try/except) on a
@@ -1793,13 +2014,20 @@ def state_machine_stream(ctx, n_cases):
             bins, nres = rng.randint(1, 4), rng.randint(1, 3)
             pipe.initialise(500.0, 501.0, bins, 1, True)
             toks += [str(bins), str(nres)]
+            tot_arr, tot_ns, ns_list = np.zeros(bins), 0, []
             for _ in range(nres):
                 ns = rng.randint(1, 5)
                 arr = np.array([rng.choice([0.0, 0.5, 1.25, rng.uniform(0, 3)]) for _ in range(bins)])
+                tot_arr, tot_ns = tot_arr + arr, tot_ns + ns
+                ns_list.append(ns)
                 pipe.update(0, (arr, 0), ns)
                 toks += [str(ns)] + [f2b(v) for v in arr]
             pipe.finalise()
             mats.append(fs([float(v) for v in pipe.matrix]))
+            if not np.allclose(pipe.matrix, tot_arr / tot_ns, rtol=1e-12, atol=0.0):
+                ctx.fail('C10:pipeline0D:update-finalise:not-per-sample-mean',
+                         'tasks with samples %r: matrix %r, sum of the packed results / total samples %r' % (ns_list, pipe.matrix.tolist(), (tot_arr / tot_ns).tolist()),
+                         dict(kind='pipeline-methods', bins=bins, samples=ns_list))
         lines.append('pipe0d ' + ' '.join(toks))
         exp.append(' | '.join(mats))
         ctx.count('K:pipeline0D-history')
@@ -2058,6 +2286,8 @@ def run(ctx):
     aliasing_stream(ctx, ctx.n(300, 3000), cap)
     rejected_stream(ctx, ctx.n(120, 1200), cap)
     state_machine_stream(ctx, ctx.n(200, 2000))
+    shared_integrator_stream(ctx, ctx.n(150, 1500), cap)
+    multitask_stream(ctx, ctx.n(40, 400))
     pipeline_stream(ctx, ctx.n(18, 150))
 
 
